@@ -857,7 +857,25 @@ def write_evidence(prop, tier, seed, results, jobs, units, violations, known_hit
         for o in real[:2] + [o for o in real if "postcondition" in o["id"] or o["description"].startswith("vt_check")][:3]:
             if len(samples) < 40:
                 samples.append({"job": r["job"], "obligation": o["id"], "text": o["description"], "in": o["function"], "status": o["status"], "clause": o.get("clause", "")})
-    assumptions = [
+    # mechanical scan of what the lowered units of this run actually contain
+    scan = set()
+    assumes = set()
+    for uname in sorted(set(r["unit"] for r in results)):
+        uu = units.get(uname)
+        if not uu:
+            continue
+        t = uu.text
+        if "g_model_alloc_bytes" in t:
+            scan.add("ASSUMED model of std::vector / basic_string / map / unordered_map (spec/stdmodel, capacity 3 elements / 6 characters) used by unit %s: results that depend on it are bounded" % uname)
+        if "SpecIStream" in t or "SpecOStream" in t:
+            scan.add("ASSUMED model of the iostream interface (spec/stream_model.h, written from [istream.unformatted]/[ostream.unformatted]) used by unit %s; refutations are replayed on the real std::stringstream / std::fstream" % uname)
+        if "vt_fd_source" in t or "vt_fd_sink" in t:
+            scan.add("ASSUMED contract of read(2)/write(2)/close(2) (spec/posix_model.h: EINTR once, EIO, EOF, short transfers) used by unit %s" % uname)
+        if "__CPROVER_uninterpreted" in t:
+            scan.add("SIPROUND abstracted as an uninterpreted function in the Compute jobs (sound given the separately proved Round contract)")
+        for m in re.finditer(r"VT_ASSUME\((.{0,140})", t):
+            assumes.add(m.group(1).split(");")[0][:120])
+    assumptions = sorted(scan) + [
         "verified text is C produced on this run by tools/nop2c from clang's AST of the instantiated libnop templates in /repo (not hand-written); dropped by the lowering: constexpr/noexcept/static_assert/access control/SFINAE, const qualifiers, exceptions (libnop throws nowhere), empty-base layout",
         "little-endian x86-64 LP64 data model; unsigned wrap-around is not flagged by itself (defined behaviour) — contracts state the mathematical facts instead",
         "CBMC 6.11.0 / goto-instrument --dfcc are trusted, as are clang 14's overload resolution, template instantiation and constant evaluation",
@@ -869,6 +887,7 @@ def write_evidence(prop, tier, seed, results, jobs, units, violations, known_hit
         "trusted_base": sorted(trusted) + ["tools/nop2c lowering (validated by native replay of counterexamples and the mutation smoke tests)", "spec/*.h reference models (SpecReader/SpecWriter proved against their own contracts)"],
         "functions_under_contract": sorted(fns.values(), key=lambda x: x["cxx"]),
         "jobs": jl, "bounded": bounded, "samples": samples or [{"note": "no obligations"}],
+        "harness_assumes": sorted(assumes)[:60],
         "undecided": undecided[:20],
         "known_findings_hit": sorted(set(k["id"] for k, _ in known_hits)),
         "violations": [{"job": v["job"], "obligation": v["obligation"], "replay": v["replay"], "native": v["native"]} for v in violations],
